@@ -238,6 +238,16 @@ def gap_table(G):
     s = G.seq(nat)
     after = G.is_ws_gap(s[-1])
     t[("BinaryOp", "<op>")] = after is not None and "nl" in after[0]
+    # a line break BEFORE a binary operator (the formatter's continuation layout `left\n  + right`) is re-read by the leading gap of
+    # every alternative of infix_usage and, inside a lambda body, of lambda_infix_usage: all of them must admit a line break
+    before = True
+    for rule in ("infix_usage", "lambda_infix_usage"):
+        if rule not in G.rules:
+            continue
+        for alt in G.alts(G.expr(rule)):
+            g0 = G.is_ws_gap(G.seq(alt)[0])
+            before = before and g0 is not None and "nl" in g0[0]
+    t[("BinaryOp", "<left>")] = before
     return t
 
 
